@@ -99,15 +99,16 @@ func drawWord(c *Ctx, label string) uint64 {
 // interpreter converts between: 2^64-1 and its neighbours (uint64 wrap-around of offset+length),
 // 2^63, 2^32 +- 1, 2^31, 2^64 (first value that does not fit), 2^255, 2^256-1.
 func pushOperand(c *Ctx, label string, a *easm, plain uint64, rarity int) bool {
-	if a.plain || c.Draw(label, rarity) != rarity-1 {
+	// its own stream (label+"e"): adding boundary operands did not shift the older choices of a tape
+	if a.plain || c.Draw(label+"e", rarity) != rarity-1 {
 		a.push(plain)
 		return false
 	}
-	switch c.Draw(label, 10) {
+	switch c.Draw(label+"e", 10) {
 	case 0:
 		a.pushBytes([]byte{0xff, 0xff, 0xff, 0xff, 0xff, 0xff, 0xff, 0xff}) // 2^64-1
 	case 1:
-		a.push(^uint64(0) - uint64(c.Draw(label, 65))) // just below 2^64
+		a.push(^uint64(0) - uint64(c.Draw(label+"e", 65))) // just below 2^64
 	case 2:
 		a.push(uint64(1) << 63)
 	case 3:
@@ -207,29 +208,33 @@ func genStatement(c *Ctx, label string, a *easm, e *evmEnv, allowNested bool) {
 		// operands: size, source offset, memory offset; the source offset (and rarely the memory offset) takes
 		// boundary values of the 64-bit conversion, with small sizes so that the memory gas stays affordable
 		kind := c.Draw(label, 4)
+		var target common.Address
+		if kind == 2 {
+			target, _ = e.drawTarget(c, label)
+		}
+		srcPlain := uint64(c.Draw(label, 64))
+		if kind == 3 {
+			srcPlain = srcPlain % 8
+		}
+		memPlain := uint64(c.Draw(label, 64))
 		edge := false
-		if c.Draw(label, 5) == 4 {
+		if !a.plain && c.Draw(label+"e", 5) == 4 {
 			// wrap-around pair: source offset just below 2^64 and a size that carries offset+size to 0..2
-			k := uint64(c.Draw(label, 8))
-			a.push(k + 1 + uint64(c.Draw(label, 3))).push(^uint64(0) - k)
+			k := uint64(c.Draw(label+"e", 8))
+			a.push(k + 1 + uint64(c.Draw(label+"e", 3))).push(^uint64(0) - k)
 			edge = true
 		} else {
 			a.push(size)
-			srcPlain := uint64(c.Draw(label, 64))
-			if kind == 3 {
-				srcPlain = uint64(c.Draw(label, 8))
-			}
 			edge = pushOperand(c, label, a, srcPlain, 4)
 		}
-		edge = pushOperand(c, label, a, uint64(c.Draw(label, 64)), 16) || edge
+		edge = pushOperand(c, label, a, memPlain, 16) || edge
 		switch kind {
 		case 0:
 			a.op(vm.CALLDATACOPY)
 		case 1:
 			a.op(vm.CODECOPY)
 		case 2:
-			t, _ := e.drawTarget(c, label)
-			a.pushAddr(t).op(vm.EXTCODECOPY)
+			a.pushAddr(target).op(vm.EXTCODECOPY)
 		default:
 			a.op(vm.RETURNDATACOPY)
 		}
@@ -326,9 +331,9 @@ func genTerminator(c *Ctx, label string, a *easm, e *evmEnv) {
 		a.note("stop")
 	case 3, 4:
 		size := uint64(c.Draw(label, 3)) * 32
-		if c.Draw(label, 6) == 5 {
+		if c.Draw(label+"e", 6) == 5 {
 			// around the maximum contract code size (a creation that returns more fails AFTER its init code ran fine)
-			size = []uint64{24576, 24577, 24577, 40000}[c.Draw(label, 4)]
+			size = []uint64{24576, 24577, 24577, 40000}[c.Draw(label+"e", 4)]
 		}
 		a.push(size)
 		pushOperand(c, label, a, uint64(c.Draw(label, 3))*32, 16)
